@@ -283,19 +283,12 @@ impl Cfg {
     /// Returns the predecessors of the given basic block.
     pub fn get_predecessors(&self, basic_block: &BasicBlock) -> Vec<&BasicBlock> {
         let mut predecessors = HashSet::new();
-        let mut update = HashSet::from([basic_block.index()]);
-        while !update.is_subset(&predecessors) {
-            predecessors.extend(update.iter().cloned());
-            update = update
-                .iter()
-                .flat_map(|index| {
-                    self.get_basic_block(*index)
-                        .expect("in control-flow graph")
-                        .predecessors()
-                        .iter()
-                        .cloned()
-                })
-                .collect();
+        let mut work_list = vec![basic_block.index()];
+        while let Some(index) = work_list.pop() {
+            if predecessors.insert(index) {
+                let basic_block = self.get_basic_block(index).expect("in control-flow graph");
+                work_list.extend(basic_block.predecessors().iter().cloned());
+            }
         }
         // Remove the initial block.
         predecessors.remove(&basic_block.index());
@@ -308,19 +301,12 @@ impl Cfg {
     /// Returns the successors of the given basic block.
     pub fn get_successors(&self, basic_block: &BasicBlock) -> Vec<&BasicBlock> {
         let mut successors = HashSet::new();
-        let mut update = HashSet::from([basic_block.index()]);
-        while !update.is_subset(&successors) {
-            successors.extend(update.iter().cloned());
-            update = update
-                .iter()
-                .flat_map(|index| {
-                    self.get_basic_block(*index)
-                        .expect("in control-flow graph")
-                        .successors()
-                        .iter()
-                        .cloned()
-                })
-                .collect();
+        let mut work_list = vec![basic_block.index()];
+        while let Some(index) = work_list.pop() {
+            if successors.insert(index) {
+                let basic_block = self.get_basic_block(index).expect("in control-flow graph");
+                work_list.extend(basic_block.successors().iter().cloned());
+            }
         }
         // Remove the initial block.
         successors.remove(&basic_block.index());
@@ -340,36 +326,22 @@ impl Cfg {
     ) -> Vec<&BasicBlock> {
         // Compute the successors of the start block (including the start block).
         let mut successors = HashSet::new();
-        let mut update = HashSet::from([start_block.index()]);
-        while !update.is_subset(&successors) {
-            successors.extend(update.iter().cloned());
-            update = update
-                .iter()
-                .flat_map(|index| {
-                    self.get_basic_block(*index)
-                        .expect("in control-flow graph")
-                        .successors()
-                        .iter()
-                        .cloned()
-                })
-                .collect();
+        let mut work_list = vec![start_block.index()];
+        while let Some(index) = work_list.pop() {
+            if successors.insert(index) {
+                let basic_block = self.get_basic_block(index).expect("in control-flow graph");
+                work_list.extend(basic_block.successors().iter().cloned());
+            }
         }
 
         // Compute the strict predecessors of the end block.
         let mut predecessors = HashSet::new();
-        let mut update = HashSet::from([end_block.index()]);
-        while !update.is_subset(&predecessors) {
-            predecessors.extend(update.iter().cloned());
-            update = update
-                .iter()
-                .flat_map(|index| {
-                    self.get_basic_block(*index)
-                        .expect("in control-flow graph")
-                        .predecessors()
-                        .iter()
-                        .cloned()
-                })
-                .collect();
+        let mut work_list = vec![end_block.index()];
+        while let Some(index) = work_list.pop() {
+            if predecessors.insert(index) {
+                let basic_block = self.get_basic_block(index).expect("in control-flow graph");
+                work_list.extend(basic_block.predecessors().iter().cloned());
+            }
         }
         predecessors.remove(&end_block.index());
 
